@@ -2,7 +2,7 @@
 //! model (absolute oracle) - properties C08..C16. Every check is also reachable as a text command
 //! (`run_cmd`) so that a violation can be replayed without the sweep around it.
 
-use crate::arith::{dom_full, dom_lat, PROVS_PLAIN, PROVS_SPARE};
+use crate::arith::{dom_full, dom_lat, PROVS_HIST, PROVS_PLAIN, PROVS_SPARE};
 use crate::battery::{default_hash_any, hash_stream_any, Level};
 use crate::common::*;
 use crate::enumr;
@@ -74,10 +74,13 @@ fn guarded(f: impl FnOnce() -> Vec<Mis>) -> Vec<Mis> {
 }
 
 pub fn standard_domain(part: &mut Part, seen: &Seen, kind: K, b: usize, lat_runs: usize, short: bool) -> Vec<Vo> {
-    let provs: &[Prov] = if kind == K::D || kind == K::A { PROVS_SPARE } else { PROVS_PLAIN };
-    let mut d = dom_full(part, seen, kind, b.min(5), provs);
+    let provs: &[Prov] = if kind == K::D || kind == K::A { PROVS_SPARE } else { PROVS_HIST };
+    // provenance variants: up to 5 bits for Bvd/Bv (they multiply the domain), up to 11 bits for the
+    // fixed kinds (identical representations are de-duplicated, so they cost only their construction)
+    let pb = if kind == K::D || kind == K::A { 5 } else { 11 };
+    let mut d = dom_full(part, seen, kind, b.min(pb), provs);
     let have: std::collections::HashSet<Raw> = d.iter().map(|x| x.v.raw()).collect();
-    if b > 5 {
+    if b > pb {
         d.extend(dom_full(part, seen, kind, b, PROVS_PLAIN).into_iter().filter(|x| !have.contains(&x.v.raw())));
     }
     let lengths = if short { enumr::lat_lengths_short(kind) } else { enumr::lat_lengths(kind) };
@@ -272,12 +275,12 @@ pub fn run_c09(cfg: &Cfg) -> (Part, Value, bool) {
     let b = if q { 5 } else { 7 };
     let mut small: Vec<Arc<Vec<Vo>>> = Vec::new();
     for &k in ALL_KINDS {
-        let provs: &[Prov] = if k == K::D || k == K::A { PROVS_SPARE } else { PROVS_PLAIN };
+        let provs: &[Prov] = if k == K::D || k == K::A { PROVS_SPARE } else { PROVS_HIST };
         small.push(Arc::new(dom_full(&mut part, &seen, k, b, provs)));
     }
     let mut lat: Vec<Arc<Vec<Vo>>> = Vec::new();
     for &k in ALL_KINDS {
-        let provs: &[Prov] = if k == K::D || k == K::A { &[Prov::Fresh, Prov::Reserve200, Prov::DynExact] } else { PROVS_PLAIN };
+        let provs: &[Prov] = if k == K::D || k == K::A { &[Prov::Fresh, Prov::Reserve200, Prov::DynExact, Prov::ShrinkPush] } else { PROVS_HIST };
         let lengths = if q { enumr::lat_lengths_short(k) } else { enumr::lat_lengths(k) };
         let mut v = dom_lat(&mut part, &seen, k, &lengths, 2, provs);
         let w = k.word();
@@ -455,9 +458,9 @@ pub fn run_c10(cfg: &Cfg) -> (Part, Value, bool) {
         vals.dedup();
         desc.push(json!({"kind": k.name(), "values": vals.len()}));
         let provs: &[Prov] = match k {
-            K::D => &[Prov::Fresh, Prov::Reserve1, Prov::Reserve200, Prov::GrowShrink],
-            K::A => &[Prov::Fresh, Prov::Reserve200, Prov::DynExact, Prov::GrowShrink],
-            _ => PROVS_PLAIN,
+            K::D => &[Prov::Fresh, Prov::Reserve1, Prov::Reserve200, Prov::GrowShrink, Prov::ShrinkPush, Prov::SubWrap],
+            K::A => &[Prov::Fresh, Prov::Reserve200, Prov::DynExact, Prov::GrowShrink, Prov::ShrinkPush, Prov::SubWrap],
+            _ => PROVS_HIST,
         };
         let p = par_over(cfg, &vals, 8, &format!("C10 {}", k.name()), |p, v| {
             let s = v.sig();
